@@ -124,7 +124,8 @@ pub fn make_rig(sc: &Value) -> (Rig, UistBroker<HClient>) {
     let log: Log = Rc::new(RefCell::new(Vec::new()));
     let lazy = sc["lazy"].as_bool().unwrap_or(false);
     let id = 0u64;
-    let client = HClient { state: state.clone(), log: log.clone(), lazy };
+    let yields = sc.get("yields").and_then(|x| x.as_u64()).unwrap_or(0) as u32;
+    let client = HClient { state: state.clone(), log: log.clone(), lazy, yields };
     let brkr = block_on(
         UistBrokerBuilder::new()
             .with_client(client, id)
